@@ -17,7 +17,10 @@ TRUSTED = [
     "Gen_C16.src_simple_wiring / src_sar_wiring / src_sar0_wiring and the parts of the detector each body reads / "
     "writes -> src_*_touch; get_dtype is read by symbolic execution over sets of integers (any decision shape built from "
     "comparisons with constants, constant tables, unrolled loops, match, helpers), the wrapper bodies after inlining "
-    "private helpers, substituting single-assignment aliases of detector attribute chains and normalising guard forms; "
+    "private helpers (of the module, or imported from the package when their free names mean the same), substituting "
+    "single-assignment aliases of detector attribute chains, unrolling loops over evident sequences (literals, "
+    "zip / enumerate / dict-literal views, names bound once to such a literal), merging a functools.partial bound "
+    "once with its single call, and normalising guard forms; "
     "fails closed on anything else)",
     "correspondence harness: harness/props/c16.py generators, harness/drivers/c16.py, float.hex() -> (m, e) literals; "
     "histories: the driver realises the operations of Model/AdcHist.v as attribute assignments on one CCD object, "
